@@ -1,14 +1,53 @@
 import AranyaV.Proofs.TypeSound
+import AranyaV.Proofs.LowerStructs
 namespace AranyaV.Lang
 open AranyaV.Gen.Lang
 
-/-- the source-level side conditions of the fragment: no global `let`s, function bodies inside
-`fragSs`, and no `never` in declared parameter / return types (there is no surface syntax for it) -/
+mutual
+/-- no struct literal inside (global `let` values of the fragment) -/
+def noStructLit : Expr → Bool
+  | .struct _ _ _ => false
+  | .some e | .ok e | .err e => noStructLit e
+  | _ => true
+end
+
+/-- the source-level side conditions of the fragment: function bodies inside `fragSs`, global
+`let`s without struct literals, and no `never` in declared parameter / return / field types (there
+is no surface syntax for it) -/
 structure FragProg (sp : SProgram) : Prop where
-  noGlobals : sp.globals = []
   bodies : ∀ fd ∈ sp.funs, fragSs fd.body = true
   rets : ∀ fd ∈ sp.funs, fd.ret.neverFree = true
   params : ∀ fd ∈ sp.funs, ∀ q ∈ fd.params, q.2.neverFree = true
+  fields : ∀ s ∈ sp.structs, ∀ q ∈ s.2, q.2.neverFree = true
+  globals : ∀ g ∈ sp.globals, noStructLit g.2 = true
+
+/-- contract of the foreign functions handed to the compiler: declared parameter types have no
+`never`; on arguments fitting them a function does not report a conversion failure (`bad`), and
+what it returns fits the declared return type -/
+def FfiContract (mods : List (Nat × List FfiSig)) (ffi : Nat → Nat → List Val → FfiRes) : Prop :=
+  ∀ mi pi m fns (sig : FfiSig), mods[mi]? = some (m, fns) → fns[pi]? = some sig →
+    (∀ t ∈ sig.args, t.neverFree = true) ∧
+    ∀ p : Program, ∀ vs, ArgsFit p vs sig.args → (match ffi mi pi vs with
+      | .bad => False
+      | .ret v => Fit p v sig.ret
+      | .fail => True)
+
+theorem constValue_fits (p : Program) (enums : List (Nat × List Nat)) (structs : List (Nat × List (Nat × Ty))) :
+    ∀ (fuel : Nat) (e : Expr) (v : Val), constValue enums structs fuel e = some v → noStructLit e = true → Fit p v v.vtype
+  | 0, _, _, h, _ => by simp [constValue] at h
+  | fuel + 1, e, v, h, hn => by
+    cases e <;> simp only [constValue] at h
+    all_goals (try (cases h; done))
+    all_goals (try (simp only [Option.some.injEq] at h; subst h; exact ⟨rfl, by simp [Val.wf]⟩))
+    all_goals (try (simp only [Option.map_eq_some_iff] at h; obtain ⟨w, hw, rfl⟩ := h
+                    simp only [noStructLit] at hn
+                    have ih := constValue_fits p enums structs fuel _ w hw hn
+                    simp only [Val.vtype]
+                    first | exact fit_some_mk ih | exact fit_ok_mk ih | exact fit_err_mk ih))
+    · simp [noStructLit] at hn
+    · split at h
+      · cases h
+      · simp only [Option.map_eq_some_iff] at h; obtain ⟨i, _, rfl⟩ := h; exact fit_enum_mk
 
 theorem lowerFun_funOk {cx : LCtx} {fd fd' : FunDef} (h : lowerFun cx fd = some fd')
     (hb : fragSs fd.body = true) (hr : fd.ret.neverFree = true) (hp : ∀ q ∈ fd.params, q.2.neverFree = true) :
@@ -67,12 +106,21 @@ theorem builtinSigs_find (f : Nat) : (builtinSigs.find? (·.1 == f)).isSome = is
 theorem ctx_of_fold (cx : LCtx) (sp : SProgram) (p : Program)
     (hfuns : sp.funs.foldl (fun (acc : Option (List FunDef)) fd => acc.bind fun out =>
       (lowerFun cx fd).map (fun fd' => out ++ [fd'])) (some []) = some p.funs)
-    (hg : cx.globals = []) (hpg : p.globals = [])
+    (hG : GOk cx p)
+    (hffi : ∀ mi pi m fns (sig : FfiSig), cx.ffiMods[mi]? = some (m, fns) → fns[pi]? = some sig →
+      (∀ t ∈ sig.args, t.neverFree = true) ∧
+      ∀ vs, ArgsFit p vs sig.args → (match p.ffi mi pi vs with
+        | .bad => False
+        | .ret v => Fit p v sig.ret
+        | .fail => True))
+    (hS : ∀ n d, cx.structDef n = some d → p.structDef n = some d)
+    (hSnf : ∀ n d, p.structDef n = some d → ∀ q ∈ d, q.2.neverFree = true)
+    (hSnd : ∀ n d, p.structDef n = some d → (d.map (·.1)).Nodup)
     (hsigs : cx.sigs = builtinSigs ++ sp.funs.map (fun fd => (fd.name, fd.params, fd.ret))) (hF : FragProg sp) :
     Ctx cx p ∧ ∀ f fd, p.funDef f = some fd → FunOk cx fd := by
   obtain ⟨l, hl, h1, h2⟩ := lowerFuns_find _ _ _ _ hfuns
   simp only [List.nil_append] at hl
-  refine ⟨⟨hg, hpg, ?_, ?_⟩, ?_⟩
+  refine ⟨⟨hG, hffi, hS, hSnf, hSnd, ?_, ?_⟩, ?_⟩
   · intro f hb
     rw [hsigs, List.find?_append]
     have := builtinSigs_find f
@@ -103,26 +151,85 @@ theorem ctx_of_fold (cx : LCtx) (sp : SProgram) (p : Program)
     exact (lowerFun_funOk hlow (hF.bodies fd hmem) (hF.rets fd hmem) (hF.params fd hmem)).2.2.2
 
 /-- the context `lowerProgram` lowers the function bodies in, and what it guarantees -/
-theorem lowerProgram_ctx {mods ffi sp p} (h : lowerProgram mods ffi sp = some p) (hF : FragProg sp) :
+theorem lowerProgram_ctx {mods ffi sp p} (h : lowerProgram mods ffi sp = some p) (hF : FragProg sp)
+    (hffi : FfiContract mods ffi) :
     ∃ cx, Ctx cx p ∧ ∀ f fd, p.funDef f = some fd → FunOk cx fd := by
+  have hnd := lowerProgram_structs h
   unfold lowerProgram at h
   simp only at h
   repeat' (split at h)
   all_goals (try (cases h; done))
   simp only [Option.some.injEq] at h; subst h
-  rename_i _ _ _ cx1 _ _ globals hgl hdup _ funs hfuns
-  rw [hF.noGlobals] at hgl
-  simp only [List.foldl_nil, Option.some.injEq] at hgl; subst hgl
-  exact ⟨_, ctx_of_fold _ sp _ hfuns rfl rfl rfl hF⟩
+  rename_i _ _ _ order _ _ cx1 hdef _ globals hgl hdup _ funs hfuns
+  have hinv : cx1.ffiMods = mods ∧ ∀ e ∈ cx1.structs, ∃ q, sp.structs.find? (·.1 == e.1) = some q ∧ q.2 = e.2 :=
+    foldl_bind_inv (fun (cx : LCtx) n => match sp.structs.find? (·.1 == n) with
+      | Option.none => Option.some cx
+      | Option.some (_, fs) =>
+        if findDup (fs.map (·.1)) || !(fs.all (fun f => typeDefined cx f.2)) then Option.none
+        else Option.some { cx with structs := cx.structs ++ [(n, fs)] })
+      (fun cx => cx.ffiMods = mods ∧ ∀ e ∈ cx.structs, ∃ q, sp.structs.find? (·.1 == e.1) = some q ∧ q.2 = e.2)
+      (by
+        intro a b a' ha hstep
+        split at hstep
+        · simp only [Option.some.injEq] at hstep; subst hstep; exact ha
+        · rename_i k fs hfind
+          split at hstep
+          · cases hstep
+          · simp only [Option.some.injEq] at hstep; subst hstep
+            refine ⟨ha.1, ?_⟩
+            intro e he
+            rcases List.mem_append.mp he with he | he
+            · exact ha.2 e he
+            · simp only [List.mem_singleton] at he; subst he
+              exact ⟨_, hfind, rfl⟩)
+      order _ cx1 ⟨rfl, by intro e he; cases he⟩ hdef
+  have hfit : ∀ P : Program, ∀ g ∈ globals, Fit P g.2 g.2.vtype := by
+    intro P
+    exact foldl_bind_inv_mem (fun (gs : List (Nat × Val)) (g : Nat × Expr) =>
+        match constValue sp.enums cx1.structs 64 g.2 with
+        | Option.none => Option.none
+        | Option.some v => if gs.any (·.1 == g.1) then Option.none else Option.some (gs ++ [(g.1, v)]))
+      (fun gs => ∀ g ∈ gs, Fit P g.2 g.2.vtype)
+      sp.globals [] globals
+      (by
+        intro a b a' hb ha hstep
+        split at hstep
+        · cases hstep
+        · rename_i v hv
+          split at hstep
+          · cases hstep
+          · simp only [Option.some.injEq] at hstep; subst hstep
+            intro g hg
+            rcases List.mem_append.mp hg with hg | hg
+            · exact ha g hg
+            · simp only [List.mem_singleton] at hg; subst hg
+              exact constValue_fits P _ _ _ _ _ hv (hF.globals b hb))
+      (by simp) hgl
+  refine ⟨_, ctx_of_fold _ sp _ hfuns ⟨rfl, hfit _⟩ ?_ ?_ ?_ hnd rfl hF⟩
+  · intro mi pi m fns sig hm hs
+    obtain ⟨h1, h2⟩ := hffi mi pi m fns sig (by rw [← hinv.1]; exact hm) hs
+    exact ⟨h1, h2 _⟩
+  · intro n d hd
+    simp only [LCtx.structDef, Option.map_eq_some_iff] at hd
+    obtain ⟨e, he, rfl⟩ := hd
+    obtain ⟨q, hq, hq2⟩ := hinv.2 e (List.mem_of_find?_eq_some he)
+    have he1 : e.1 = n := by have := List.find?_some he; simpa using this
+    rw [he1] at hq
+    simp only [Program.structDef, hq, Option.map_some, hq2]
+  · intro n d hd q hq
+    simp only [Program.structDef, Option.map_eq_some_iff] at hd
+    obtain ⟨s0, hs0, rfl⟩ := hd
+    exact hF.fields s0 (List.mem_of_find?_eq_some hs0) q hq
 
 /-- **typecheck_sound** on the fragment: a call of a declared function of an accepted program
 with arguments fitting its parameter types is never stuck, never ends in a stray `return`, and a
 value it returns fits the declared return type. -/
 theorem typecheck_sound_frag {mods ffi sp p} (h : lowerProgram mods ffi sp = some p) (hF : FragProg sp)
+    (hffi : FfiContract mods ffi)
     (n f : Nat) (fd : FunDef) (args : List Val) (hfd : p.funDef f = some fd)
-    (hargs : ArgsFit args (fd.params.map (·.2))) :
-    ROk (FitV fd.ret) (fun _ => False) (evalFn p n f args) := by
-  obtain ⟨cx, hC, hok⟩ := lowerProgram_ctx h hF
+    (hargs : ArgsFit p args (fd.params.map (·.2))) :
+    ROk (FitV p fd.ret) (fun _ => False) (evalFn p n f args) := by
+  obtain ⟨cx, hC, hok⟩ := lowerProgram_ctx h hF hffi
   exact (snd_all hC n).call f fd args [] hfd (hok f fd hfd) hargs
 
 end AranyaV.Lang
